@@ -4,6 +4,7 @@ import (
 	"context"
 	"fmt"
 	"io"
+	"net"
 	"os"
 	"regexp"
 	"sort"
@@ -37,7 +38,18 @@ func TestMain(m *testing.M) {
 	vt.Main(m)
 }
 
-var ips = []string{"10.1.0.1", "10.1.0.2", "10.1.0.3", "10.1.0.4"}
+var ips = []string{"10.1.0.1", "10.1.0.2", "10.1.0.3", "10.1.0.4", "FD00:0:0:0::5"}
+
+// lookupIPs: what is looked up - the addresses pods are given, and another spelling of one of them. The provider matches
+// addresses as text; whether it also recognises another spelling of a live pod's address is left open, but an answer under
+// any spelling has to be the pod now holding the address.
+var lookupIPs = append(append([]string{}, ips...), "fd00::5")
+
+func sameAddress(a, b string) bool {
+	x, y := net.ParseIP(a), net.ParseIP(b)
+	return x != nil && y != nil && x.Equal(y)
+}
+
 var labelKeys = []string{"app", "app.kubernetes.io/name", "team", "gostatsd.atlassian.com/tag1", "apple"}
 var annotationKeys = []string{"gostatsd.atlassian.com/tag1", "gostatsd.atlassian.com/", "product.company.com/tag2", "tag3", "gostatsd.atlassian.com/a/b"}
 var values = []string{"v1", "v2", "", "x:y"}
@@ -265,10 +277,17 @@ func TestPodHistories(t *testing.T) {
 
 		var lookup func(t *rapid.T, ip string)
 		lookup = func(t *rapid.T, ip string) {
-			var holder *podState
+			var holder, alias *podState
 			for _, p := range pods {
 				if p.ip == ip && p.indexable() {
 					holder = p
+				}
+			}
+			if holder == nil {
+				for _, p := range pods {
+					if p.ip != ip && sameAddress(p.ip, ip) && p.indexable() {
+						alias = p
+					}
 				}
 			}
 			viaSink := rapid.Bool().Draw(t, "via-ipsink")
@@ -296,7 +315,14 @@ func TestPodHistories(t *testing.T) {
 				}
 			}
 			history = append(history, fmt.Sprintf("lookup %s -> %v", ip, describe(got)))
-			if holder == nil {
+			if holder == nil && alias != nil && got != nil {
+				// the address is held by a pod that spells it differently: nothing, or that pod as it is now
+				gt := append([]string(nil), got.Tags...)
+				sort.Strings(gt)
+				if string(got.ID) != alias.ns+"/"+alias.name || strings.Join(gt, "\x00") != strings.Join(wantTags(alias, lre, are), "\x00") {
+					fail("C13:stale-or-wrong-pod", "lookup %q returned %s, the pod holding that address (as %q) is %s/%s with tags %q", ip, describe(got), alias.ip, alias.ns, alias.name, wantTags(alias, lre, are))
+				}
+			} else if holder == nil {
 				if got != nil {
 					fail("C13:stale-or-wrong-pod", "lookup %q returned %s but no running non-host-network pod holds that IP", ip, describe(got))
 				}
@@ -474,7 +500,7 @@ func TestPodHistories(t *testing.T) {
 				sort.Strings(held)
 				lookup(t, rapid.SampledFrom(held).Draw(t, "held-ip"))
 			},
-			"lookup": func(t *rapid.T) { lookup(t, rapid.SampledFrom(ips).Draw(t, "ip")) },
+			"lookup": func(t *rapid.T) { lookup(t, rapid.SampledFrom(lookupIPs).Draw(t, "ip")) },
 		})
 		labels := []string{}
 		if lrs != "" {
